@@ -292,6 +292,7 @@ var c14Setter = probe.Define("C14", "setter", func(t *rapid.T) c14SetIn { panic(
 
 func TestC14(t *testing.T) {
 	c := probe.NewCtx(t, "C14")
+	idleStart(c, "eap-packet")
 	if c.Shard == 0 {
 		endurance(c, "C14", "aka-setattr-gaps", 140000)
 		endurance(c, "C14", "eap-unmarshal", 1100000)
@@ -307,4 +308,5 @@ func TestC14(t *testing.T) {
 		}
 	}
 	c14Codec.Run(c, t, c.N(5000, 50000))
+	idleFinish(c, "C14", "eap-packet")
 }
